@@ -111,6 +111,12 @@ def gen_scenario(rng, tier, knobs):
     if rng.random() < knobs.get('cancel_prob', 0.3):
         ops.append([round(rng.uniform(0.0, 3.0), 2), 'cancel',
                     sorted(rng.sample(range(n), rng.randint(1, 2)))])
+        if knobs.get('long_cancel'):
+            # the named tasks live long enough to tell whether the request
+            # issued by the application stopped them
+            for i in ops[-1][2]:
+                tasks[i]['runtime'] = rng.choice([1.0, 8.0, 8.0])
+                tasks[i]['descr'].pop('timeout', None)
     if rng.random() < knobs.get('work_exc_prob', 0.4):
         ops.append([0.0, 'work_exc', rng.choice(COMPONENTS[:7]),
                     rng.randrange(n)])
@@ -276,7 +282,8 @@ def run(seed, sc, trace=None, tier='quick'):
         st = {'w': None, 'tasks': [], 'uids': [], 'exp': {}, 'cb': {},
               'samples': {}, 'plans': {}, 'exc_hit': set(), 'io_hit': set(),
               'cancel': set(), 'cancel_at': {}, 'submitted_at': {},
-              'spec': {}, 'ghost_seen': {}, 'pstage_err': []}
+              'spec': {}, 'ghost_seen': {}, 'pstage_err': [],
+              'cancel_t': {}}
         sim.data['e2e'] = st
 
         def ghost_agent():
@@ -436,6 +443,7 @@ def run(seed, sc, trace=None, tier='quick'):
                         for u in uids:
                             st['cancel'].add(u)
                             st['cancel_at'][u] = len(sim.events)
+                            st['cancel_t'][u] = sim.now
                         tmgr.cancel_tasks(uids)
             flush()
 
@@ -458,6 +466,7 @@ def run(seed, sc, trace=None, tier='quick'):
         def final(sim):
             oracle_c05(sim, sc, st)
             oracle_c11(sim, sc, st)
+            oracle_c08(sim, sc, st)
 
         cfg['final'] = final
         return driver
@@ -663,6 +672,32 @@ def oracle_c05(sim, sc, st):
             sim.violation('C05', 'component_died', e.get('name'),
                           {'err': e.get('err')})
             break
+
+
+def oracle_c08(sim, sc, st):
+    '''a cancel request issued by the application (TaskManager.cancel_tasks)
+    reaches the pilot and stops the named task's process'''
+    hold = sum(op[3] for op in sc['ops'] if op[1] == 'partition')
+    for uid in sorted(st['cancel']):
+        t_req = st['cancel_t'].get(uid)
+        spawn = exit_ = None
+        for ev in sim.events:
+            if ev.get('tag') == uid and ev['kind'] == 'proc_spawn':
+                spawn = ev
+            if ev.get('tag') == uid and ev['kind'] == 'proc_exit':
+                exit_ = ev
+        if t_req is None or spawn is None or exit_ is None:
+            continue
+        t_spawn = spawn['t'] + sim.t0
+        t_exit  = exit_['t'] + sim.t0
+        if uid in st['exc_hit'] or uid in st['io_hit']:
+            continue
+        if t_spawn < t_req and exit_.get('why') == 'time' and \
+                t_exit - t_req > 3.0 + hold:
+            sim.violation('C08', 'named_not_canceled', 'e2e',
+                          {'uid': uid, 'ran_on_for': round(t_exit - t_req, 2),
+                           'state': [t.state for t in st['tasks']
+                                     if t.uid == uid]})
 
 
 def site_of(sc, st, uid):
